@@ -744,7 +744,17 @@ impl Div for Number {
 /// carried as a Rational32. Rational32::new overflows while normalising
 /// i32::MIN over a negative denominator; checked_div does not.
 fn ratio_of(numer: Option<i32>, denom: Option<i32>) -> Option<Rational32> {
-    Rational32::from_integer(numer?).checked_div(&Rational32::from_integer(denom?))
+    ratio_div(&Rational32::from_integer(numer?), &Rational32::from_integer(denom?))
+}
+
+/// lhs / rhs, or None if the quotient is not a Rational32. checked_div first reduces by
+/// gcd(lhs.numer, rhs.numer), and gcd(0, i32::MIN) overflows: a zero dividend is
+/// answered before it gets there.
+fn ratio_div(lhs: &Rational32, rhs: &Rational32) -> Option<Rational32> {
+    if *lhs.numer() == 0 && *rhs.numer() != 0 {
+        return Some(Rational32::from_integer(0));
+    }
+    lhs.checked_div(rhs)
 }
 
 /// The quotient of two big integers as a float. Converting the operands first gives
@@ -780,7 +790,7 @@ impl Div for &Number {
                 Number::Float(rhs) => (*lhs as f64 / rhs).into(),
                 Number::Rational(rhs) => {
                     if lhs.to_i32().is_some() {
-                        match Rational32::from_integer(*lhs as i32).checked_div(rhs) {
+                        match ratio_div(&Rational32::from_integer(*lhs as i32), rhs) {
                             Some(num) => num.into(),
                             None => (*lhs as f64 / rhs.to_f64().unwrap_or(f64::NAN)).into(),
                         }
@@ -805,7 +815,7 @@ impl Div for &Number {
                 Number::Float(rhs) => (lhs.to_f64().unwrap() / *rhs).into(),
                 Number::Rational(rhs) => {
                     if lhs.to_i32().is_some() {
-                        match Rational32::from_integer(lhs.to_i32().unwrap()).checked_div(rhs) {
+                        match ratio_div(&Rational32::from_integer(lhs.to_i32().unwrap()), rhs) {
                             Some(num) => num.into(),
                             None => {
                                 (lhs.to_f64().unwrap() / rhs.to_f64().unwrap_or(f64::NAN)).into()
@@ -825,7 +835,7 @@ impl Div for &Number {
             Number::Rational(lhs) => match rhs {
                 Number::Fixnum(rhs) => {
                     if rhs.to_i32().is_some() {
-                        match lhs.checked_div(&Rational32::from_integer(*rhs as i32)) {
+                        match ratio_div(lhs, &Rational32::from_integer(*rhs as i32)) {
                             Some(num) => num.into(),
                             None => (lhs.to_f64().unwrap_or(f64::MAX) / *rhs as f64).into(),
                         }
@@ -836,7 +846,7 @@ impl Div for &Number {
                 Number::Float(rhs) => (lhs.to_f64().unwrap_or(f64::NAN) / *rhs).into(),
                 Number::BigInt(rhs) => {
                     if rhs.to_i32().is_some() {
-                        match lhs.checked_div(&Rational32::from_integer(rhs.to_i32().unwrap())) {
+                        match ratio_div(lhs, &Rational32::from_integer(rhs.to_i32().unwrap())) {
                             Some(num) => num.into(),
                             None => {
                                 (lhs.to_f64().unwrap_or(f64::MAX) / rhs.to_f64().unwrap()).into()
@@ -846,7 +856,7 @@ impl Div for &Number {
                         (lhs.to_f64().unwrap_or(f64::MAX) / rhs.to_f64().unwrap()).into()
                     }
                 }
-                Number::Rational(rhs) => match lhs.checked_div(rhs) {
+                Number::Rational(rhs) => match ratio_div(lhs, rhs) {
                     Some(num) => num.into(),
                     None => {
                         (lhs.to_f64().unwrap_or(f64::NAN) / rhs.to_f64().unwrap_or(f64::NAN)).into()
